@@ -460,7 +460,7 @@ def c7_repetition_scan(fb, rep):
             return {'+': a + b_, '-': a - b_, '*': a * b_, '>=': int(a >= b_), '>': int(a > b_), '<': int(a < b_), '<=': int(a <= b_),
                     '==': int(a == b_), '!=': int(a != b_), '&&': int(bool(a) and bool(b_)), '||': int(bool(a) or bool(b_))}[t['op']]
         if t.get('k') == 'cond':
-            return ev(t.get('t'), env, depth + 1) if ev(t.get('c'), env, depth + 1) else ev(t.get('f'), env, depth + 1)
+            return ev(t.get('a'), env, depth + 1) if ev(t.get('c'), env, depth + 1) else ev(t.get('b'), env, depth + 1)
         raise Unk(show(t, 60))
     missing, outside = [], []
     try:
